@@ -491,7 +491,7 @@ func (w *h1World) stuckOnOversize() bool {
 }
 
 func init() {
-	for _, p := range []string{"C02", "C03", "C13", "C14", "C17"} {
+	for _, p := range []string{"C02", "C14", "C17"} {
 		simkit.Register(&simkit.Prop{ID: p, Gen: h1GenDriven(p), Exec: h1ExecDriven})
 	}
 }
